@@ -228,51 +228,10 @@ def one_world(args):
     return out
 
 
-# Replies that make a handshake function read bytes of its `in[4096]` which NO reply of that function call has written — C: whatever the stack
-# holds (usually what the previous handshake function left in ITS `in[]`); model (Handshake.lean header): 0.  The model cannot represent that
-# read, so a run is compared up to, not including, the first such op.  Exactly these reads exist in client.c:
-#   * `fragsize_check`: `in[1]` of a ONE-byte reply to a fragment-size probe;
-#   * the `strncmp("BADLEN" | "BADIP" | "BADCODEC" | "Lazy" | "BADFRAG", in, n)` of the codec / option / lazy / fragsize switches on a reply that
-#     is a proper PREFIX of the literal: `in[read]` (login terminates the reply before it compares; the version / ip / echo / check-string
-#     steps test the length first).
-# A byte an EARLIER reply of the same call wrote is known to the model (`HState.inb`) when that reply came in a raw record (NULL / PRIVATE / A);
-# CNAME / TXT / MX / SRV answers leave an undecoded tail behind the decoded bytes that the model does not know either.
-_HS_LITERALS = {"s": [b"BADLEN", b"BADIP", b"BADCODEC"], "o": [b"BADLEN", b"BADIP", b"BADCODEC"], "ol": [b"BADLEN", b"BADIP", b"BADCODEC", b"Lazy"],
-                "n": [b"BADFRAG", b"BADIP"]}
-
-
-class _InTracker:
-    def __init__(self):
-        self.key, self.qid, self.known = None, None, 0
-
-    def query(self, qid, name):
-        """the handshake sent a query: which function call is running"""
-        c = chr(name[0]).lower() if name else "?"
-        key = c + ("l" if c == "o" and name[2:3] in (b"l", b"i") else "")
-        if key != self.key:
-            self.key, self.known = key, 0          # another function: a fresh in[]
-        self.qid = qid
-
-    def reply_reads_unwritten(self, rq):
-        """rq = fields of the `rq` event; True when the C code acts on a byte of in[] the model does not know"""
-        rv, qid, rtype, name0 = int(rq[1]), int(rq[2]), int(rq[3]), int(rq[5])
-        data = bytes.fromhex(rq[6]) if rq[6] != "-" else b""
-        raw_record = rtype in (10, 65399, 1)
-        bad = False
-        if rv > 0 and self.key and qid == self.qid and chr(name0).lower() == self.key[0]:
-            need = None                              # highest index of in[] the function reads beyond the reply
-            if self.key == "r" and rv == 1:
-                need = 1
-            for lit in _HS_LITERALS.get(self.key, []):
-                if rv < len(lit) and data[:rv] == lit[:rv]:
-                    need = rv if need is None else max(need, rv)
-                elif data[:len(lit)] == lit:
-                    break                            # this comparison succeeds: the later ones are not made
-            if need is not None and not (raw_record and need < self.known):
-                bad = True
-        if rv > 0:
-            self.known = max(self.known, rv) if raw_record else 0
-        return bad
+# Until ee87c7d ("compare handshake replies only up to their length") some replies made a handshake function read bytes of its `in[4096]`
+# that no reply had written (a one-byte answer to a fragment-size probe; a proper prefix of BADLEN / BADIP / BADCODEC / Lazy / BADFRAG in the
+# four switch handshakes), and the comparison of a run was cut at the first such op.  The repaired client reads nothing behind `read`
+# (Props/C06.lean, `handshake_reply_residue_free`): EVERY op of every run is compared.
 
 
 def client_model_ops(cops, clines):
@@ -280,10 +239,8 @@ def client_model_ops(cops, clines):
     input the real client was fed during the handshake and the tunnel phase (`ans` replaced by what read_dns_withq returned: the `rq` event;
     raw mode and the raw login of the handshake: the datagram, `rawans`).  After a modelled handshake `start tunnel` continues on the state
     the handshake MODEL reached.  A run without `start handshake` (tunnel-only callers) gets the state the real client reached (`cset` from
-    the digest) as before.  Returns (model ops, expected lines, number of handshake-phase ops, index of the first op that depends on bytes of
-    `in[]` no reply has written (see _InTracker) | None) or None."""
+    the digest) as before.  Returns (model ops, expected lines, number of handshake-phase ops) or None."""
     mops, expect = [], []
-    tracker, cut = _InTracker(), None
     phase = "cfg"              # cfg -> handshake -> (between) -> tunnel
     modelled_hs = False
     nhs = 0
@@ -302,10 +259,6 @@ def client_model_ops(cops, clines):
                 mops.append(op); expect.append(line)
                 phase, modelled_hs = "handshake", True
                 nhs += 1
-                tracker = _InTracker()
-                for e in ev:
-                    if e[0] == "query":
-                        tracker.query(int(e[1]), bytes.fromhex(e[3]) if e[3] != "-" else b"")
                 raw_login = any(e[0] == "rawtx" for e in ev)
                 if sel is None:
                     phase = "between"
@@ -330,8 +283,6 @@ def client_model_ops(cops, clines):
                 mops.append("rawans " + t[1])
             else:
                 mops.append("rq %s %s %s %s %s %s" % rq[1:7])
-                if phase == "handshake" and cut is None and tracker.reply_reads_unwritten(rq):
-                    cut = len(mops) - 1
         elif t[0] in ("tick", "tun"):
             mops.append(op)
         elif t[0] == "ctime":
@@ -342,9 +293,6 @@ def client_model_ops(cops, clines):
         expect.append(line)
         if phase == "handshake":
             nhs += 1
-            for e in ev:
-                if e[0] == "query":
-                    tracker.query(int(e[1]), bytes.fromhex(e[3]) if e[3] != "-" else b"")
             raw_login = any(e[0] == "rawtx" for e in ev) if any(e[0] in ("rawtx", "tx") for e in ev) else raw_login
             if sel is None:
                 phase = "between"
@@ -353,7 +301,7 @@ def client_model_ops(cops, clines):
             raw = st.get("conn") == "0"
     if not any(o.startswith("start ") for o in mops):
         return None
-    return mops, expect, nhs, cut
+    return mops, expect, nhs
 
 
 def project_cli(line):
@@ -382,13 +330,9 @@ def client_model_diff(chk, res):
         done += [(r, mo, m) for (r, mo), m in zip(blk, pool.map(lambda x: vlib.run_lines(drv, x[1][0]), blk))]
     pool.shutdown()
     for r, mo, m in done:
-        mops, expect, nhs, cut = mo
+        mops, expect, nhs = mo
         in_hs = False
-        if cut is not None:
-            hs["runs_cut_at_unwritten_in"] = hs.get("runs_cut_at_unwritten_in", 0) + 1
         for i, (o, e) in enumerate(zip(mops, expect)):
-            if i == cut:
-                break       # from here on the real client acts on stack bytes the model cannot know (see _InTracker)
             a = project_cli(e)
             b = m.lines[i] if i < len(m.lines) else "<no-answer>"
             n += 1
